@@ -109,7 +109,26 @@ def classify(b, comp, fa):
         kinds = sorted(k for k, _ in sides)
         if "variant" in kinds and any(k in ("invariant", "invariant-getter", "const") for k in kinds):
             var = [o for k, o in sides if k == "variant"][0]
-            return "W1", "exit on `%s %s <loop-invariant>` at %s" % (
+            # the sentinel must be tested on EVERY iteration: without its block the loop body has no cycle left
+            # (a `continue` that jumps over the wrap-around test defeats it)
+            rest = set(comp) - {u}
+            cyc = False
+            for s0 in rest:
+                seen_, stack = set(), [x for x in cfg.succs(b, s0) if x in rest]
+                while stack:
+                    x = stack.pop()
+                    if x == s0:
+                        cyc = True
+                        break
+                    if x in seen_:
+                        continue
+                    seen_.add(x)
+                    stack.extend(y for y in cfg.succs(b, x) if y in rest)
+                if cyc:
+                    break
+            if cyc:
+                return None, ("the sentinel test at %s can be bypassed: some cycle of the loop does not pass it" % b.loc(u))
+            return "W1", "exit on `%s %s <loop-invariant>` at %s, tested on every iteration" % (
                 (b.local_name(var[0]) or "_%d" % var[0]) + "".join(var[1]), cmp_stmt["op"], b.loc(u))
     return None, "exits: %s" % ", ".join(b.loc(u) for u, v in exits[:6])
 
@@ -140,9 +159,24 @@ def run(ctx):
                     # the guard call sits before the loop and is conditional on a >= comparison
                     ok = bool(gc) and all(g not in comp for g in gc) and any(
                         s["r"]["k"] == "bin" and s["r"]["op"] in ("Ge", "Gt", "Le", "Lt") for bi, s in cfg.assigns(b) if bi not in comp)
-                ctx.ob("R19", inst, ok, "W3 (frozen): " + reason if ok else
-                       "loop of `%s` relies on the load-factor guard `%s`, which is no longer present before the loop" % (name, guard_callee),
-                       b.loc(header))
+                msg = "loop of `%s` relies on the load-factor guard `%s`, which is no longer present before the loop" % (name, guard_callee)
+                # the loop must leave on EVERY non-Valid slot state: the switch on the slot's MapValueState keeps only
+                # `Valid` inside the loop (a loop that skips tombstones never ends once no Empty slot is left)
+                for i_sw in sorted(comp):
+                    tt = b.blocks[i_sw]["term"]
+                    if tt["k"] != "switch":
+                        continue
+                    pl = cfg.op_place(tt["d"])
+                    ds = cfg.defs(b).get(pl[0], []) if pl else []
+                    if ds and ds[0][0] == "assign" and ds[0][2]["k"] == "discr" and (ds[0][2].get("enum") or "").endswith("MapValueState"):
+                        names = dict((v, nme) for v, nme in ds[0][2]["variants"])
+                        stay = sorted(names.get(v, "?") for v, tb in tt["ts"] if tb in comp and
+                                      b.blocks[tb]["term"]["k"] != "unreachable")
+                        if stay != ["Valid"]:
+                            ok = False
+                            msg = ("the probe loop of `%s` continues on slot states %s; it must stop at every non-Valid slot "
+                                   "(Empty and Deleted), otherwise it never ends once no Empty slot is left" % (name, stay))
+                ctx.ob("R19", inst, ok, "W3 (frozen): " + reason if ok else msg, b.loc(header))
                 continue
             ctx.ob("R19", inst, False,
                    "loop in `%s` has no structural termination witness (no wrap-around / bound sentinel exit; %s): with every "
